@@ -19,7 +19,7 @@ from vlib.hypo import Check, guarded
 PID = "C03"
 LEVEL = "exploration"
 RULE = (
-    "kernel_exact: Hypothesis draws (kernel, d in 1..4, K in 1..3 modes with means in the cube, SPD scales A A^T + eps I of condition <= 1e4, nu in "
+    "kernel_exact: Hypothesis draws (kernel, d in 1..8, K in 1..3 modes with means in the cube, SPD scales A A^T + eps I of condition <= 1e4, nu in "
     "[0.5,1e6], walker positions, labels, periodic/reflective index subsets, step sizes sigma in (0,1) resp. (0,3), beta in (0,1]) and scripts every "
     "gamma / normal / uniform variate. Non-trivial = K>=2 or a boundary index set non-empty or nu<30 (for the composition part: at least one "
     "accepted and one rejected walker). invariance: generated cells (kernel, d in 1..3, beta, product target of truncated normals / von Mises / "
@@ -145,7 +145,7 @@ def make_modes(case):
 
 @st.composite
 def exact_cases(draw):
-    d = draw(st.integers(1, 4))
+    d = draw(st.one_of(st.integers(1, 4), st.integers(1, 8)))
     K = draw(st.integers(1, 3))
     n = draw(st.integers(1, 5))
     kinds = [draw(st.sampled_from(["hard", "hard", "periodic", "reflective"])) for _ in range(d)]
